@@ -59,6 +59,14 @@ def scaling_factor(ctx, rule):
 
 
 def check(ctx):
+    # ---- C03-n the configuration (p_frac, p_initial, nx, fluid) is not rewritten by simulate / recovery calls (the
+    # ceiling 1 - rho_f / rho_i is that of the object's own settings, whatever was run on it before)
+    from .c10 import family_rules
+
+    try:
+        family_rules(ctx, {"b": "C03-n"})
+    except AnalysisError as e:  # the clause cannot be evaluated on this tree: the property's own rules still run
+        ctx.notes.append(f"C03-n not evaluated: {e}")
     scaling_factor(ctx, "C03-a")
     n = 0
     for cls in ("IdealReservoir", "SinglePhaseReservoir", "TwoPhaseReservoir"):  # the concrete classes: an override in a subclass is seen through its MRO
